@@ -641,15 +641,26 @@ def replay(payload):
         fld = cls("x", len=f["len"], offset=f["offset"], mult=f["mult"])
         ln = f["len"]
         lo, hi = (-(1 << (8 * ln - 1)), (1 << (8 * ln - 1)) - 1) if cls.SIGN else (0, (1 << (8 * ln)) - 1)
-        v = f["raw"] * f["mult"] + f["offset"]
-        try:
-            b = fld._to_bytes({"x": v})
-            out = {}
-            fld._from_bytes(out, b)
-            ok = lo <= f["raw"] <= hi and len(b) == ln and out["x"] == v
-            return {"confirmed": not ok, "observed": [list(b), out], "expected": "round trip of %d" % v}
-        except OverflowError:
-            return {"confirmed": lo <= f["raw"] <= hi, "observed": "OverflowError", "expected": "in range" if lo <= f["raw"] <= hi else "OverflowError"}
+        # the model's value first, then boundary / precision-critical values of the same field (the verifier's counter-model of an
+        # over-approximated operation - e.g. float division - need not be the failing input itself)
+        cands = [f["raw"]] + [c for c in (hi, hi - 1, lo, lo + 1, (1 << 53) + 1, -((1 << 53) + 1), (1 << 60) + 1, 0, 1, -1) if lo <= c <= hi]
+        last = None
+        for raw_ in cands:
+            v = raw_ * f["mult"] + f["offset"]
+            inr = lo <= raw_ <= hi
+            try:
+                b = fld._to_bytes({"x": v})
+                out = {}
+                fld._from_bytes(out, b)
+                ok = inr and len(b) == ln and out["x"] == v and list(b) == list((raw_ % (1 << (8 * ln))).to_bytes(ln, "little" if cls.__name__.endswith("LE") else "big"))
+                last = {"confirmed": not ok, "observed": [list(b), out], "expected": "round trip of %d" % v, "raw": raw_}
+            except OverflowError:
+                last = {"confirmed": inr, "observed": "OverflowError", "expected": "in range" if inr else "OverflowError", "raw": raw_}
+            except Exception as e:
+                last = {"confirmed": True, "observed": "raises %s: %s" % (type(e).__name__, e), "expected": "round trip of %d" % v, "raw": raw_}
+            if last["confirmed"]:
+                return last
+        return last
     if what in ("enc_val", "dec_val"):
         bl, off = f["bl"], f["off"]
         fl = cd.BitField("x", bl)
